@@ -5,6 +5,8 @@ aggregate nodes, one invisible aggregate target), an opaque source table and opa
 the events of each path, not over statement shapes."""
 from __future__ import annotations
 
+import ast
+
 from ..symex import Sym, T, SList, Engine, Raise, show, contains, early_exits, gname
 from ..loader import AnalysisError, loc
 from ..report import RuleResult
@@ -98,6 +100,7 @@ def engine(P, *, where=(False, None), group_indexes=None, having=None, having_cl
             return ALLOC
         if last == 'defaultdict' and len(args) == 1 and isinstance(args[0], T) and args[0].op in ('func', 'lambda'):
             # the group container: a mapping whose missing keys are made by a local function
+            ex.__dict__['group_kind'] = 'new'
             return T('new', ('defaultdict', args[0]))
         if f in ('dict', 'collections.OrderedDict', 'OrderedDict') and not args and not kwargs:
             return T('dict', ())
@@ -105,6 +108,12 @@ def engine(P, *, where=(False, None), group_indexes=None, having=None, having_cl
             # the group container: what it answers depends on whether the key of this row was seen before (key_state)
             if last == 'items' and not args:
                 return GROUPS
+            rname = ast.unparse(node.func.value) if isinstance(getattr(node, 'func', None), ast.Attribute) else None
+            if last in ('setdefault', 'get') and not any(seq == TABLE for _, seq in ex.loops):
+                return NotImplemented        # not during the scan of the source table: not the group container at work
+            if last in ('setdefault', 'get'):
+                ex.__dict__.setdefault('group_vars', set()).add(rname)
+                ex.__dict__.setdefault('group_kind', recv.op)
             if last == 'setdefault' and len(args) == 2:
                 if key_state == 'existing':
                     ex.events.append(('group-lookup', args[0], EXISTING))
@@ -120,6 +129,13 @@ def engine(P, *, where=(False, None), group_indexes=None, having=None, having_cl
                     ex.events.append(('group-lookup', args[0], EXISTING))
                     return EXISTING
                 return args[1] if len(args) == 2 else None
+            in_scan = any(seq == TABLE for _, seq in ex.loops)
+            if last in ('values', 'keys') and not args and not in_scan and rname not in ex.__dict__.get('group_vars', ()) and \
+                    (ex.__dict__.get('group_vars') or ex.__dict__.get('group_kind', recv.op) != recv.op or
+                     not any(e_[0] in ('group-store', 'group-lookup') for e_ in ex.events)):
+                # a mapping that never held a group (nothing was stored into it during a scan of the source table): some other
+                # dictionary of the function, e.g. one used to drop duplicate rows; what comes out of it is not known on terms
+                return T('call', (f'{show(recv)}.{last}', (), ()))
             if last in ('values', 'keys', 'pop', 'popitem', 'clear', 'update'):
                 raise AnalysisError(f'execute_select: use of the group container through .{last}() is not understood')
         if f == 'iter' and len(args) == 1:
@@ -212,6 +228,7 @@ def rule_aggproto_deep(P):
 
 
 def _rule_aggproto(P, deep) -> RuleResult:
+    global M
     import itertools
     res = RuleResult('R-AGGPROTO-DEEP' if deep else 'R-AGGPROTO')
     res.exhaustive = True
@@ -248,6 +265,35 @@ def _rule_aggproto(P, deep) -> RuleResult:
                         return res
                     res.ok({'group_by_targets': gi, 'where': wdesc, 'having': hdesc, 'row': 'first of its group' if key_state == 'new' else
                             'a later row of its group', 'paths': len(paths)})
+    if not deep:
+        # LIMIT, DISTINCT and ORDER BY act on the groups, not on the rows the aggregates are computed from
+        for gi in ([], [0, 2]):
+            for kw, what in (({'limit': Sym('LIMIT')}, 'LIMIT n'), ({'limit': 0}, 'LIMIT 0'), ({'distinct': True}, 'DISTINCT')):
+                ncases += 1
+                for p in _paths(P, fi, where=(False, None), group_indexes=gi, key_state='new', **kw):
+                    if p.outcome != 'return':
+                        fail('raises', f'GROUP BY targets {gi} with {what}: the aggregate branch ends with {p.outcome} {show(p.value)[:60]}')
+                        continue
+                    _judge_agg(p, fi, gi, (False, None, 'absent'), (None, None, 'absent'), fail, 'new')
+                if len(res.findings) > n0:
+                    return res
+                res.ok({'group_by_targets': gi, 'with': what, 'aggregates_fed_from': 'every selected row of the source table'})
+        # a grouped query without any aggregate (GROUP BY a, b with b not selected) still has one row per distinct key
+        keep = M
+        M = Model(('key', 'key-hidden', 'key'))
+        try:
+            for gi in ([0, 1, 2], [1, 0, 2]):
+                ncases += 1
+                for p in _paths(P, fi, where=(False, None), group_indexes=gi, key_state='new'):
+                    if p.outcome != 'return':
+                        fail('raises', f'GROUP BY targets {gi} without aggregates: ends with {p.outcome} {show(p.value)[:60]}')
+                        continue
+                    _judge_agg(p, fi, gi, (False, None, 'absent'), (None, None, 'absent'), fail, 'new')
+                if len(res.findings) > n0:
+                    return res
+                res.ok({'group_by_targets': gi, 'aggregates': 'none, one key is not selected', 'rows': 'one per distinct key'})
+        finally:
+            M = keep
     res.ok({'function': fi.fq, 'cases': ncases, 'clauses': ['allocate-before-scan', 'fresh-initialised-store-per-group', 'update-under-gate',
                                                            'groups-in-first-appearance-order', 'finalize-per-group-before-evaluation',
                                                            'key-layout', 'having', 'one-row-per-group']})
@@ -260,6 +306,11 @@ def _judge_agg(p, fi, gi, where, having, fail, key_state='new'):
     ev = p.events
     scan = loop_events(p, TABLE)
     if scan is None:
+        through = [e[1] for e in ev if e[0] == 'loop-begin' and e[1] != TABLE and contains(e[1], TABLE)]
+        if through:
+            fail('scan', f'GROUP BY targets {gi}: the aggregates are fed from `{show(through[0])[:80]}`, not from every row of the source '
+                 f'table: what is cut off or skipped there never reaches count / sum / min / max / first / last')
+            return
         raise AnalysisError(f'{fi.fq}: the scan of the source table in the aggregate branch was not found')
     first_scan = next(i for i, e in enumerate(ev) if e[0] == 'loop-begin' and e[1] == TABLE)
     # (a) every aggregate node gets its slot once, before the scan
@@ -303,6 +354,12 @@ def _judge_agg(p, fi, gi, where, having, fail, key_state='new'):
     else:
         if len(stores) != 1:
             if not stores:
+                produced = [e for e in sev if e[0] == 'produce']
+                if produced and not updates:
+                    fail('grouping', f'GROUP BY targets {gi}: a selected row is appended to the result as it is, without being assigned to '
+                         f'a group: the query is answered by the row loop of ungrouped queries (one row per source row, or per distinct '
+                         f'*visible* row), not with one row per distinct key')
+                    return
                 raise AnalysisError(f'{fi.fq}: per-group store lookup not found: shape not understood')
             fail('store', f'the store of the group is looked up {len(stores)} times for one row')
             return
